@@ -52,9 +52,11 @@ import (
 	"github.com/AdguardTeam/AdGuardHome/internal/home"
 	"github.com/AdguardTeam/AdGuardHome/internal/querylog"
 	"github.com/AdguardTeam/AdGuardHome/internal/stats"
+	"github.com/AdguardTeam/AdGuardHome/internal/verifyield"
 	"github.com/AdguardTeam/AdGuardHome/verifsim/dnsnode"
 	"github.com/AdguardTeam/AdGuardHome/verifsim/env"
 	"github.com/AdguardTeam/AdGuardHome/verifsim/kernel"
+	"github.com/AdguardTeam/AdGuardHome/verifsim/sched"
 	"github.com/insomniacslk/dhcp/dhcpv4"
 	"github.com/miekg/dns"
 	"pgregory.net/rapid"
@@ -71,11 +73,14 @@ type Task struct {
 
 // Scenario is one case.
 type Scenario struct {
-	Mode    string   `json:"mode"` // "B" or "C"
+	Mode    string   `json:"mode"` // "B", "C" or "D"
 	MemSize uint     `json:"mem_size"`
 	Cache   bool     `json:"cache"`
 	Repeat  int      `json:"repeat"` // mode C: how often each burst is repeated
 	Epochs  [][]Task `json:"epochs"`
+	// Mode D: one scheduler seed per epoch and the preemption probability.
+	SchedSeeds []uint64 `json:"sched_seeds,omitempty"`
+	SwitchPct  int      `json:"switch_pct,omitempty"`
 }
 
 const serverName = "dns.example"
@@ -161,8 +166,14 @@ func Gen(t *rapid.T, tier string) any {
 		if tier == "thorough" {
 			share = 2
 		}
-		if rapid.IntRange(0, share).Draw(t, "mode_c") == 0 {
+		switch rapid.IntRange(0, share+1).Draw(t, "mode_c") {
+		case 0:
 			mode = "C"
+		case 1:
+			// A seeded cooperative schedule with preemption at every lock
+			// acquisition (exactly repeatable; needs the yield-instrumented
+			// copy of the repository the check builds from).
+			mode = "D"
 		}
 	}
 	sc.Mode = mode
@@ -171,8 +182,15 @@ func Gen(t *rapid.T, tier string) any {
 		maxTasks = 24
 		sc.Repeat = rapid.IntRange(1, 3).Draw(t, "repeat")
 	}
+	if mode == "D" {
+		maxTasks = 8
+		sc.SwitchPct = rapid.SampledFrom([]int{5, 15, 30, 60}).Draw(t, "switch_pct")
+	}
 	for i := 0; i < nEpochs; i++ {
 		sc.Epochs = append(sc.Epochs, genEpoch(t, mode, maxTasks))
+		if mode == "D" {
+			sc.SchedSeeds = append(sc.SchedSeeds, rapid.Uint64().Draw(t, "sched_seed"))
+		}
 	}
 	return sc
 }
@@ -223,6 +241,13 @@ type runner struct {
 	problems []*kernel.Violation
 	listN    int
 	fivexx   int
+
+	// abandon is set when a mode D epoch ended in a deadlock: the parked tasks
+	// hold the node's locks for ever and the node must not be closed.
+	abandon bool
+	// tickAfter is the clock advance owed by the w_clock_tick tasks of a mode
+	// D epoch.
+	tickAfter time.Duration
 }
 
 // onConfigModified does what home's onConfigModified -> (*configuration).write
@@ -230,7 +255,7 @@ type runner struct {
 // lock it asks every component for its current settings again (the file write
 // itself is C14's subject).
 func (r *runner) onConfigModified() {
-	r.confLock.Lock()
+	verifyield.Acquire(r.confLock.TryLock, r.confLock.Lock, "config.lock")
 	defer r.confLock.Unlock()
 
 	if r.st != nil {
@@ -480,6 +505,15 @@ func (r *runner) run(tk Task) {
 		querylog.VerifCheckAndRotate(ctx, r.ql)
 	case "w_clock_tick":
 		// Let the filter-update timer and a protection pause deadline pass.
+		if r.sc.Mode == "D" {
+			// The bubble's clock stands still while tasks are parked: the
+			// clock moves when the epoch's tasks have finished.
+			r.mu.Lock()
+			r.tickAfter += 6 * time.Second
+			r.mu.Unlock()
+			sched.Yield()
+			break
+		}
 		time.Sleep(6 * time.Second)
 	default:
 		r.problem(kernel.Violationf("harness-unknown-task", "%q", tk.Kind))
@@ -595,6 +629,9 @@ func raceSignature(report string) string {
 // ---- run ---------------------------------------------------------------------
 
 func (r *runner) epoch(i int, tasks []Task) error {
+	if r.sc.Mode == "D" {
+		return r.epochD(i, tasks)
+	}
 	var wg sync.WaitGroup
 	start := time.Now()
 	for _, tk := range tasks {
@@ -613,6 +650,62 @@ func (r *runner) epoch(i int, tasks []Task) error {
 		}(tk)
 	}
 	wg.Wait()
+	kernel.Wait()
+	return nil
+}
+
+// epochD runs the tasks under the seeded cooperative scheduler: one task
+// executes at a time and the token moves at lock acquisitions only.
+func (r *runner) epochD(i int, tasks []Task) error {
+	var names []string
+	var fns []func()
+	for _, tk := range tasks {
+		names = append(names, tk.Kind)
+		fns = append(fns, func() {
+			defer func() {
+				if p := recover(); p != nil {
+					r.problem(kernel.Violationf("panic-in-task", "task %s panicked: %v", tk.Kind, p))
+				}
+			}()
+			r.run(tk)
+		})
+	}
+	// The body of the filtering module's updates loop runs as one more task
+	// (twice: requests made after the first pass are handled by the second).
+	for k := 0; k < 2; k++ {
+		names = append(names, "w_filter_updates")
+		fns = append(fns, func() {
+			sched.Yield()
+			r.n.Filter.VerifDrainInitializer()
+		})
+	}
+	var seed uint64
+	if i < len(r.sc.SchedSeeds) {
+		seed = r.sc.SchedSeeds[i]
+	}
+	res := sched.Run(seed, r.sc.SwitchPct, names, fns)
+	// The number of failed lock attempts is left out of the event log: a
+	// goroutine of the system that is not a task (the address processor, say)
+	// can make one more attempt fail without changing the order of the tasks.
+	r.c.Eventf("  sched steps=%d spawned=%d escapes=%d", res.Steps, res.Spawned, res.Escapes)
+	r.c.Probes["sched_spawned_tasks"] += res.Spawned
+	r.c.Probes["sched_steps"] += res.Steps
+	r.c.Probes["sched_switches"] += res.Switches
+	r.c.Probes["sched_lock_waits"] += res.Blocked
+	if res.Escapes > 0 {
+		r.c.Probes["sched_escapes"] += res.Escapes
+	}
+	if res.Deadlock != "" {
+		// The tasks stay parked holding their locks: nothing of this node may
+		// be touched again.
+		r.abandon = true
+		return kernel.Violationf("deadlock: "+res.Deadlock, "epoch %d (D) tasks %v seed %d: every unfinished task waits for a lock and none can be granted:\n%s", i, names, seed, res.Detail)
+	}
+	r.n.Filter.VerifDrainInitializer()
+	if r.tickAfter > 0 {
+		time.Sleep(r.tickAfter)
+		r.tickAfter = 0
+	}
 	kernel.Wait()
 	return nil
 }
@@ -664,6 +757,8 @@ func (r *runner) probe() error {
 func Run(t *testing.T, scAny any, c *kernel.Ctx) error {
 	sc := scAny.(*Scenario)
 	dnsnode.InitProcess()
+	sched.Init()
+	sched.SpawnAllow = []string{"querylog.(*queryLog).Add", "enableProtectionAfterPause"}
 	dir, err := kernel.TempDir("c05")
 	if err != nil {
 		return err
@@ -693,7 +788,11 @@ func Run(t *testing.T, scAny any, c *kernel.Ctx) error {
 		}
 		r.st = st
 		st.VerifInitWeb()
-		defer st.VerifCrash()
+		defer func() {
+			if !r.abandon {
+				st.VerifCrash()
+			}
+		}()
 
 		ds, err := dhcpd.Create(&dhcpd.ServerConfig{ConfigModified: r.onConfigModified, HTTPRegister: mux.Register, Enabled: true, InterfaceName: "verif0", LocalDomainName: "lan",
 			Conf4: dhcpd.V4ServerConf{GatewayIP: netip.MustParseAddr("192.168.10.1"), SubnetMask: netip.MustParseAddr("255.255.255.0"),
@@ -707,9 +806,15 @@ func Run(t *testing.T, scAny any, c *kernel.Ctx) error {
 		r.dh = dh
 
 		up := &env.Upstream{Addr: "sim-upstream:53", Answer: answerWithHints, Latency: 337 * time.Microsecond}
+		if sc.Mode == "D" {
+			// The clock of the bubble stands still while tasks are parked: the
+			// exchange is a scheduling point instead of a pause.
+			up.Latency = 0
+			up.OnExchange = func() { sched.Yield() }
+		}
 		cfg := &dnsnode.Config{Dir: dir, ListServer: r.ls, Upstream: up, UpTimeout: 2 * time.Second, ServerName: serverName,
 			QueryLog: ql, Stats: st, Anonymizer: anonymizer, ClientDHCP: dh, DHCP: dh, LocalDomain: "lan", RuntimeSourceDHCP: true,
-			OnModified: r.onConfigModified}
+			OnModified: r.onConfigModified, NoUpdatesLoop: sc.Mode == "D"}
 		cfg.Filtering = filtering.Config{BlockingMode: filtering.BlockingModeDefault, ProtectionEnabled: true, FilteringEnabled: true, FiltersUpdateIntervalHours: 1,
 			UserRules: []string{"||ads.test^"}, Rewrites: []*filtering.LegacyRewrite{{Domain: "*.rw.test", Answer: "198.18.0.1"}},
 			SafeSearchCacheSize: 1 << 16, CacheTime: 30}
@@ -728,7 +833,11 @@ func Run(t *testing.T, scAny any, c *kernel.Ctx) error {
 		if err != nil {
 			return err
 		}
-		defer n.Close()
+		defer func() {
+			if !r.abandon {
+				n.Close()
+			}
+		}()
 		r.n = n
 		r.find, r.cnt = home.VerifClientFuncs(n.Clients, n.Server)
 		for _, rt := range mux.Routes() {
